@@ -186,6 +186,12 @@ def parse_with_formats(date_string, date_formats, settings):
         except ValueError:
             continue
         else:
+            if not ("%y" in date_format or "%Y" in date_format):
+                # Apply the current year first, so that a missing day or month
+                # is completed in that year (leap years) and not in 1900.
+                today = datetime.today()
+                date_obj = date_obj.replace(year=today.year)
+
             missing_month = not any(m in date_format for m in ["%m", "%b", "%B"])
             missing_day = "%d" not in date_format
             if missing_month and missing_day:
@@ -200,10 +206,6 @@ def parse_with_formats(date_string, date_formats, settings):
             elif missing_day:
                 period = "month"
                 date_obj = set_correct_day_from_settings(date_obj, settings)
-
-            if not ("%y" in date_format or "%Y" in date_format):
-                today = datetime.today()
-                date_obj = date_obj.replace(year=today.year)
 
             date_obj = apply_timezone_from_settings(date_obj, settings)
 
